@@ -163,6 +163,7 @@ def solver_lib(world, path, save, cfg=None, capture=None):
         cr = proc.mod("conditionalrewards")
         games = cr.read_dict_from_file(path)
         if capture is not None:
+            capture["arg_obj"] = games
             try:
                 capture["arg"] = enc(copy.deepcopy(games))
             except Exception as e:  # noqa
@@ -174,6 +175,51 @@ def solver_lib(world, path, save, cfg=None, capture=None):
             cr.save_results_to_file(res, path)
         return res
     return world.run_op(thunk, cfg)
+
+
+def container_ids(obj, acc=None, depth=0):
+    """ids of every list/dict/set reachable from obj (the caller's own data, not to be scribbled on)."""
+    acc = set() if acc is None else acc
+    if depth > 8:
+        return acc
+    if isinstance(obj, (list, dict, set, tuple)):
+        if id(obj) in acc:
+            return acc
+        acc.add(id(obj))
+        for x in (obj.values() if isinstance(obj, dict) else obj):
+            container_ids(x, acc, depth + 1)
+    return acc
+
+
+def scribble(obj, protect=frozenset(), depth=0, seen=None):
+    """The caller edits what a call returned to it (its own data from then on): every list reachable
+    from the returned value is reversed and extended, every dict gets one more key.  Code that hands
+    out its internal or cached objects instead of fresh ones shows on the next call.  Containers in
+    `protect` (objects the caller passed *in*) are left alone.  Returns the number of containers edited."""
+    seen = set() if seen is None else seen
+    if depth > 8 or id(obj) in seen:
+        return 0
+    n = 0
+    if isinstance(obj, (list, dict, tuple, set)):
+        seen.add(id(obj))
+        for x in list(obj.values() if isinstance(obj, dict) else obj):
+            n += scribble(x, protect, depth + 1, seen)
+        if id(obj) in protect:
+            return n
+        try:
+            if isinstance(obj, list):
+                obj.reverse()
+                obj.append("edited-by-the-caller")
+                n += 1
+            elif isinstance(obj, dict):
+                obj["edited-by-the-caller"] = True
+                n += 1
+            elif isinstance(obj, set):
+                obj.add("edited-by-the-caller")
+                n += 1
+        except Exception:
+            pass
+    return n
 
 
 def read_file(world, path, cfg=None):
